@@ -190,6 +190,16 @@ def generate(r, tier, index):
     elif mode == 'container_cycle':
         root['items'].append(['ca', {'t': 'map', 'items': [['x', {'t': 'ref', 'to': ['cb']}]]}])
         root['items'].append(['cb', {'t': 'list', 'items': [{'t': 'leaf', 'v': 'cb-leaf-token-value'}, {'t': 'ref', 'to': ['ca']}]}])
+    if r.random() < 0.25:
+        # names that a YAML reader would take for booleans / null if it resolved them, referenced in every spelling
+        for i, nm in enumerate(r.sample(['on', 'off', 'no', 'yes', 'null', 'true', 'False', 'NULL', 'y', 'n'], r.randrange(1, 4))):
+            counter[0] += 1
+            root['items'].append([nm, {'t': 'leaf', 'v': f'token-number-{counter[0]}-of-this-config'}])
+            root['items'].append([f'odd{i}', {'t': 'ref', 'to': [nm], 'sp': r.choice(['plain', 'md', 'md', 'md_quoted', 'quoted'])}])
+    if r.random() < 0.3:
+        for k_, v_ in root['items']:
+            if v_['t'] == 'ref' and 'sp' not in v_:
+                v_['sp'] = r.choice(['quoted', 'plain', 'md', 'md_quoted'])
     if r.random() < 0.3:
         r.shuffle(root['items'])
     # split over stages / files: top-level keys are partitioned (disjoint keys: the merge is a plain union)
@@ -320,7 +330,12 @@ def _to_emit(node, tag):
     if t == 'leaf':
         return s(node['v'])
     if t == 'ref':
-        return raw(f'{tag} "{_path_text(node["to"])}"')
+        # spellings: quoted path (default), plain scalar, and the annotated form !xref{{..}} path
+        sp = node.get('sp', 'quoted')
+        text = _path_text(node['to'])
+        if '[' in text or sp in ('quoted', 'md_quoted'):
+            text = '"' + text + '"'
+        return raw((tag + "{{'hop': 1}}" if sp.startswith('md') else tag) + ' ' + text)
     if t == 'map':
         return m([[k, _to_emit(v, tag)] for k, v in node['items']])
     if t == 'list':
